@@ -238,6 +238,26 @@ def struct_unpack(interp, fmt, data):
     return tuple(out)
 
 
+def struct_unpack_from(interp, fmt, data, offset=0):
+    """struct.unpack_from(fmt, buffer, offset=0): the buffer may be longer than the format; a negative offset counts from
+    the end; struct.error when fewer than calcsize(fmt) octets remain"""
+    from . import builtins_model as bm
+    if not isinstance(data, BytesV):
+        interp.throw("TypeError", "a bytes-like object is required")
+    _, items = parse_fmt(interp, fmt)
+    total = sum(n for n, _ in items)
+    n = ops.rope_len(data.rope)
+    off = as_int(offset)
+    if interp.truth(ops.cmp("<", off, 0)):
+        off = ops.add(off, n)
+        if interp.truth(ops.cmp("<", off, 0)):
+            interp.throw("struct.error", "offset out of range")
+    if interp.truth(ops.cmp("<", ops.sub(n, off), total)):
+        interp.throw("struct.error", f"unpack_from requires a buffer of at least {total} bytes")
+    piece = BytesV(bm.rope_slice(interp, data.rope, off, ops.add(off, total)), "bytes")
+    return struct_unpack(interp, fmt, piece)
+
+
 def struct_calcsize(interp, fmt):
     _, items = parse_fmt(interp, fmt)
     return sum(n for n, _ in items)
@@ -421,6 +441,7 @@ def stub_module(interp, name):
         m = ModuleV("struct", {})
         m.ns["pack"] = _b("struct.pack")(struct_pack)
         m.ns["unpack"] = _b("struct.unpack")(struct_unpack)
+        m.ns["unpack_from"] = _b("struct.unpack_from")(struct_unpack_from)
         m.ns["calcsize"] = _b("struct.calcsize")(struct_calcsize)
         m.ns["error"] = interp.exc_classes["struct.error"]
         return m
